@@ -79,7 +79,7 @@ def partitions(rng, recs, mx):
     return out
 
 
-def file_cases(chk, zs, thorough, per_zoo_cap=None):
+def file_cases(chk, zs, thorough, per_zoo_cap=None, large=False):
     """[(zoo, max, codec, ops, tag)]"""
     out = []
     rng = chk.rng
@@ -118,4 +118,21 @@ def file_cases(chk, zs, thorough, per_zoo_cap=None):
             for mx in (2, 1000):
                 for codec in (0, 1, 2):
                     out.append((z, mx, codec, [("a", r) for r in rs] + [("w",), ("c",)], tag))
+    # large pages: a single page well beyond 32 KiB / 64 KiB of values (decompressor windows, int16/int32 sizes)
+    for name, n in ((("three", 4300),) + ((("doc", 1500), ("flat", 600)) if thorough else ())) if large else ():
+        z = zs.get(name)
+        if z is None:
+            continue
+        g3 = zoolib.Gen(rng, mode="mixed", p_nil=0.2)
+        rs = [g3.record(z.nodes) for _ in range(n)]
+        for codec in (0, 1, 2):
+            out.append((z, 100000, codec, [("a", r) for r in rs] + [("w",), ("c",)], "large-page"))
+            out.append((z, n // 2 + 1, codec, [("a", r) for r in rs] + [("w",), ("c",)], "large-page"))
+    # one very long string value
+    z = zs.get("three") if large else None
+    if z is not None:
+        big = ("struct", [("leaf", zoolib.le(1, 8)), ("some", ("leaf", bytes((i * 7 + i // 251) % 256 for i in range(70000)))), ("list", [])])
+        small = ("struct", [("leaf", zoolib.le(2, 8)), ("nil",), ("list", [("leaf", zoolib.le(5, 4))])])
+        for codec in (0, 1, 2):
+            out.append((z, 10, codec, [("a", big), ("a", small), ("w",), ("c",)], "long-string"))
     return out, meta
